@@ -31,9 +31,23 @@ import (
 //     oracles are off.
 
 func init() {
-	Register(&Check{ID: "C35", World: "B/cluster (race detector)", Gen: genRace, Run: runRace, RaceMode: true, Real: bReal,
+	Register(&Check{ID: "C35", World: "B/cluster + real fileConfig (race detector)", RaceMode: true,
+		Real: append(append([]string{}, bReal...), "config.fileConfig (configuration runs: Reload, every getter, reload callbacks)"),
+		Gen: func(r *Rng, tier string, p *Plan) {
+			if r.Bool(0.12) {
+				genCfgRace(r, tier, p)
+				return
+			}
+			genRace(r, tier, p)
+		},
+		Run: func(t *testing.T, p *Plan) *Outcome {
+			if p.On("cfgrace") {
+				return runCfgRace(t, p)
+			}
+			return runRace(t, p)
+		},
 		Stub:      append(append([]string{}, bStub...), "doubles run stateless; oracles other than the race detector are off"),
-		OwnProbes: []string{"race_run_with_reload", "race_run_with_stress_toggle", "race_run_with_memory_pressure", "race_run_redis_membership", "race_run_with_shutdown_under_load", "race_run_query_endpoints", "race_run_span_under_stress"}})
+		OwnProbes: []string{"race_run_with_reload", "race_run_with_stress_toggle", "race_run_with_memory_pressure", "race_run_redis_membership", "race_run_with_shutdown_under_load", "race_run_query_endpoints", "race_run_span_under_stress", "race_run_real_fileconfig"}})
 }
 
 func genRace(r *Rng, tier string, p *Plan) {
